@@ -366,8 +366,15 @@ func runC06(r *Run) {
 				case "bulk":
 					k2 := keys[len(keys)-1]
 					var entries []entryIn
-					at := map[int]entryIn{255: {Key: in.Key, Muts: in.Muts}, 256: {Key: k2, Muts: in.TrueM}, 511: {Key: in.Key, Muts: in.FalseM}, 512: {Key: k2, Muts: in.Muts}}
-					for i := 0; i < 530; i++ {
+					// every other run sends 1300 entries instead (the contended rows then sit at
+					// 255, 256, 1100 and 1101)
+					nBulk, p3, p4 := 530, 511, 512
+					if r.Index%2 == 1 {
+						nBulk, p3, p4 = 1300, 1100, 1101
+						r.Probe("c06.bulk_request_over_1024_entries")
+					}
+					at := map[int]entryIn{255: {Key: in.Key, Muts: in.Muts}, 256: {Key: k2, Muts: in.TrueM}, p3: {Key: in.Key, Muts: in.FalseM}, p4: {Key: k2, Muts: in.Muts}}
+					for i := 0; i < nBulk; i++ {
 						if e, ok := at[i]; ok {
 							entries = append(entries, e)
 						} else {
@@ -377,9 +384,9 @@ func runC06(r *Run) {
 					cs, err := w.MutateRows(tbl, entries)
 					evt++
 					ret := evt
-					for _, i := range []int{255, 256, 511, 512} {
+					for _, i := range []int{255, 256, p3, p4} {
 						e := entries[i]
-						ein := c06In{Kind: "mutate", Key: e.Key, Muts: e.Muts, Desc: fmt.Sprintf("MutateRows (530 entries) entry %d %q %s", i, e.Key, mutsString(e.Muts))}
+						ein := c06In{Kind: "mutate", Key: e.Key, Muts: e.Muts, Desc: fmt.Sprintf("MutateRows (%d entries) entry %d %q %s", nBulk, i, e.Key, mutsString(e.Muts))}
 						ok := err == nil && cs[i] == codes.OK
 						hist = append(hist, histOp{Client: c*1000 + i, In: ein, Out: c06Out{OK: ok, Err: errStr(err)}, Call: call, Ret: ret})
 					}
